@@ -6,7 +6,8 @@
    F26 (RFC 8781 prefix length code table, unencodable length omitted),
    F27 (prefix bits beyond the prefix length cleared), F28 (no RDNSS/DNSSL
    option without entries) and F45 ($self6 also replaced in interface-level
-   dns-servers).  Definitions only.
+   dns-servers) and F46 (search domains that are not RFC 1035 names left out).
+   Definitions only.
 
    Conventions: addresses are lists of 16 octets; strings are lists of octets
    (UTF-8 as Rust holds them); a [dur] is std::time::Duration (whole seconds +
@@ -129,6 +130,9 @@ Definition enc_domain (d : list N) : list N := flat_map enc_label (split_on 46 d
 Definition pad8 (n : N) : N := (8 - n mod 8) mod 8.                          (* zeros up to a multiple of 8 *)
 Definition enc_domains (ds : list (list N)) : list N :=
   let b := flat_map enc_domain ds in b ++ repeatN 0 (pad8 (lenN b)).
+(* a name whose labels are all 1..63 octets; anything else is skipped by the encoder *)
+Definition label_encodable (l : list N) : bool := (1 <=? lenN l) && (lenN l <=? 63).
+Definition domain_encodable (d : list N) : bool := forallb label_encodable (split_on 46 d).
 Definition enc_url (u : list N) : list N := u ++ repeatN 0 (pad8 (lenN u + 2)).
 Definition div_ceil (a b : N) : N := (a + b - 1) / b.
 
@@ -144,8 +148,11 @@ Definition enc_opt (o : ndopt) : list N :=
   | ORdnss lt servers =>
     [25; cast 8 (1 + 2 * lenN servers); 0; 0] ++ be32 (clamp 32 (as_secs lt)) ++ concat servers
   | ODnssl lt ds =>
-    let b := enc_domains ds in
-    [31; 1 + cast 8 (lenN b / 8); 0; 0] ++ be32 (clamp 32 (as_secs lt)) ++ b
+    let ok := filter domain_encodable ds in
+    if is_nil ok then []                          (* no name left: option omitted *)
+    else
+      let b := enc_domains ok in
+      [31; 1 + cast 8 (lenN b / 8); 0; 0] ++ be32 (clamp 32 (as_secs lt)) ++ b
   | OPref64 lt len addr =>
     match plc_of_len len with
     | Some plc =>
@@ -161,7 +168,8 @@ Definition opt_panics (o : ndopt) : option panic_kind :=
   match o with
   | OSourceLL b => if div_ceil (lenN b) 8 <? 256 then None else Some UnwrapNone
   | ORdnss _ servers => if 1 + 2 * lenN servers <? 256 then None else Some UnwrapNone
-  | ODnssl _ ds => if cast 8 (lenN (enc_domains ds) / 8) =? 255 then Some Overflow else None
+  | ODnssl _ ds =>
+    if cast 8 (lenN (enc_domains (filter domain_encodable ds)) / 8) =? 255 then Some Overflow else None
   | _ => None
   end.
 
